@@ -51,6 +51,18 @@ host does not for its own gateway (repair F-57) or without a gateway. -/
 def CheapOut (c : List NodeCfg) (n : Nat) (dst : Ip) : Prop :=
   ∀ nc, c[n]? = some nc → nc.kind = .router ∨ nc.kind = .switch ∨ nc.gateway = none ∨ nc.gateway = some dst
 
+/-- a request (echo request, service request, application request) / a reply. -/
+def IsRequest : Pl → Prop
+  | .echoReq _ => True
+  | .dataReq => True
+  | .appReq _ _ => True
+  | _ => False
+def IsReply : Pl → Prop
+  | .echoRep _ => True
+  | .dataRep => True
+  | .appRep _ => True
+  | _ => False
+
 /-- the classes of frames, ordered by what their handling can start. -/
 inductive Cls | p | q1 | q0 | r | e
 deriving DecidableEq, Repr
@@ -59,8 +71,8 @@ def ClsOk (c : List NodeCfg) : Cls → Frame → Prop
   | .p, f => (∃ a b t m, f.pl = .arpRep a b t m) ∧ Genuine c f.dstIp f.dstMac
   | .q1, f => (∃ s m, f.pl = .arpReq s m f.dstIp ∧ Genuine c s m) ∧ f.dstMac = bcastMac ∧ NH c f.dstIp
   | .q0, f => (∃ s m, f.pl = .arpReq s m f.dstIp ∧ Genuine c s m) ∧ f.dstMac = bcastMac
-  | .r, f => (∃ i, f.pl = .echoRep i) ∨ f.pl = .dataRep
-  | .e, f => (∃ i, f.pl = .echoReq i) ∨ f.pl = .dataReq
+  | .r, f => IsReply f.pl
+  | .e, f => IsRequest f.pl
 
 /-- what the handling of a frame of the class may need beyond its own transit (nesting levels). -/
 def Hc : Cls → Nat
@@ -133,8 +145,10 @@ theorem clsOk_arpReq {c : List NodeCfg} {k : Cls} {f : Frame} {s : Ip} {m : Mac}
   · obtain ⟨⟨s', m', h1, h2⟩, h3⟩ := h
     rw [hp] at h1; cases h1
     exact ⟨Or.inr rfl, rfl, h3, h2, fun hk => by cases hk⟩
-  · rcases h with ⟨i, h1⟩ | h1 <;> (rw [hp] at h1; cases h1)
-  · rcases h with ⟨i, h1⟩ | h1 <;> (rw [hp] at h1; cases h1)
+  · have h' : IsReply f.pl := h
+    rw [hp] at h'; exact h'.elim
+  · have h' : IsRequest f.pl := h
+    rw [hp] at h'; exact h'.elim
 
 theorem clsOk_arpRep {c : List NodeCfg} {k : Cls} {f : Frame} {s : Ip} {m : Mac} {t : Ip} {tm : Mac}
     (hp : f.pl = .arpRep s m t tm) (h : ClsOk c k f) : k = .p ∧ Genuine c f.dstIp f.dstMac := by
@@ -142,26 +156,28 @@ theorem clsOk_arpRep {c : List NodeCfg} {k : Cls} {f : Frame} {s : Ip} {m : Mac}
   · exact ⟨rfl, h.2⟩
   · obtain ⟨⟨s', m', h1, _⟩, _⟩ := h; rw [hp] at h1; cases h1
   · obtain ⟨⟨s', m', h1, _⟩, _⟩ := h; rw [hp] at h1; cases h1
-  · rcases h with ⟨i, h1⟩ | h1 <;> (rw [hp] at h1; cases h1)
-  · rcases h with ⟨i, h1⟩ | h1 <;> (rw [hp] at h1; cases h1)
+  · have h' : IsReply f.pl := h
+    rw [hp] at h'; exact h'.elim
+  · have h' : IsRequest f.pl := h
+    rw [hp] at h'; exact h'.elim
 
-theorem clsOk_request {c : List NodeCfg} {k : Cls} {f : Frame} (hp : (∃ i, f.pl = .echoReq i) ∨ f.pl = .dataReq)
-    (h : ClsOk c k f) : k = .e := by
+theorem clsOk_request {c : List NodeCfg} {k : Cls} {f : Frame} (hp : IsRequest f.pl) (h : ClsOk c k f) : k = .e := by
   cases k
-  · obtain ⟨⟨a, b, t', m', h1⟩, _⟩ := h; rcases hp with ⟨i, hp⟩ | hp <;> (rw [hp] at h1; cases h1)
-  · obtain ⟨⟨s', m', h1, _⟩, _⟩ := h; rcases hp with ⟨i, hp⟩ | hp <;> (rw [hp] at h1; cases h1)
-  · obtain ⟨⟨s', m', h1, _⟩, _⟩ := h; rcases hp with ⟨i, hp⟩ | hp <;> (rw [hp] at h1; cases h1)
-  · rcases h with ⟨i, h1⟩ | h1 <;> rcases hp with ⟨j, hp⟩ | hp <;> (rw [hp] at h1; cases h1)
+  · obtain ⟨⟨a, b, t', m', h1⟩, _⟩ := h; rw [h1] at hp; exact hp.elim
+  · obtain ⟨⟨s', m', h1, _⟩, _⟩ := h; rw [h1] at hp; exact hp.elim
+  · obtain ⟨⟨s', m', h1, _⟩, _⟩ := h; rw [h1] at hp; exact hp.elim
+  · have h' : IsReply f.pl := h
+    cases hpl : f.pl <;> rw [hpl] at hp h' <;> first | exact hp.elim | exact h'.elim
   · rfl
 
-theorem clsOk_reply {c : List NodeCfg} {k : Cls} {f : Frame} (hp : (∃ i, f.pl = .echoRep i) ∨ f.pl = .dataRep)
-    (h : ClsOk c k f) : k = .r := by
+theorem clsOk_reply {c : List NodeCfg} {k : Cls} {f : Frame} (hp : IsReply f.pl) (h : ClsOk c k f) : k = .r := by
   cases k
-  · obtain ⟨⟨a, b, t', m', h1⟩, _⟩ := h; rcases hp with ⟨i, hp⟩ | hp <;> (rw [hp] at h1; cases h1)
-  · obtain ⟨⟨s', m', h1, _⟩, _⟩ := h; rcases hp with ⟨i, hp⟩ | hp <;> (rw [hp] at h1; cases h1)
-  · obtain ⟨⟨s', m', h1, _⟩, _⟩ := h; rcases hp with ⟨i, hp⟩ | hp <;> (rw [hp] at h1; cases h1)
+  · obtain ⟨⟨a, b, t', m', h1⟩, _⟩ := h; rw [h1] at hp; exact hp.elim
+  · obtain ⟨⟨s', m', h1, _⟩, _⟩ := h; rw [h1] at hp; exact hp.elim
+  · obtain ⟨⟨s', m', h1, _⟩, _⟩ := h; rw [h1] at hp; exact hp.elim
   · rfl
-  · rcases h with ⟨i, h1⟩ | h1 <;> rcases hp with ⟨j, hp⟩ | hp <;> (rw [hp] at h1; cases h1)
+  · have h' : IsRequest f.pl := h
+    cases hpl : f.pl <;> rw [hpl] at hp h' <;> first | exact hp.elim | exact h'.elim
 
 /-- the frame `receive_payload_from_software_manager` builds for an ARP packet is of class `k`. -/
 def PktOk (c : List NodeCfg) (k : Cls) (pl : Pl) (dstIp : Ip) : Prop :=
@@ -170,7 +186,7 @@ def PktOk (c : List NodeCfg) (k : Cls) (pl : Pl) (dstIp : Ip) : Prop :=
 
 /-- … and for an ICMP / service payload (only the payload decides the class). -/
 def PlCls (k : Cls) (pl : Pl) : Prop :=
-  (k = .r ∧ ((∃ i, pl = .echoRep i) ∨ pl = .dataRep)) ∨ (k = .e ∧ ((∃ i, pl = .echoReq i) ∨ pl = .dataReq))
+  (k = .r ∧ IsReply pl) ∨ (k = .e ∧ IsRequest pl)
 
 theorem PlCls.ok {c : List NodeCfg} {k : Cls} {pl : Pl} (h : PlCls k pl) (f : Frame) (hf : f.pl = pl) : ClsOk c k f := by
   subst hf
@@ -754,6 +770,11 @@ theorem t_host (k : Cls) (st : St) (n i : Nat) (f : Frame) (hT : T c st) (hC : C
       · exact (hT.addArp _ _ _ _).emit _
       · exact hT.emit _
     split
+    · refine ⟨?_, rfl⟩
+      split
+      · exact hT.addArp _ _ _ _
+      · exact hT
+    split
     · rename_i sIp sMac tIp hpl
       obtain ⟨hk', htd, hbc, hgen, hnh⟩ := clsOk_arpReq hpl hC
       split
@@ -775,24 +796,33 @@ theorem t_host (k : Cls) (st : St) (n i : Nat) (f : Frame) (hT : T c st) (hC : C
       · exact ⟨hTX, rfl⟩
       · exact ⟨hTX.addArp _ _ _ _, rfl⟩
     · rename_i ident hpl
-      have hke := clsOk_request (Or.inl ⟨ident, hpl⟩) hC
+      have hke := clsOk_request (by rw [hpl]; trivial) hC
       subst hke
       split
       · exact ⟨hTX, rfl⟩
       · have h1 := ih.out X n f.srcIp hTX (by bud)
         split
         · exact ⟨h1, rfl⟩
-        · exact ⟨ih.icmp .r _ n _ _ h1 (Or.inl ⟨rfl, Or.inl ⟨ident, rfl⟩⟩) (by bud), rfl⟩
+        · exact ⟨ih.icmp .r _ n _ _ h1 (Or.inl ⟨rfl, trivial⟩) (by bud), rfl⟩
     · exact ⟨hTX.mod _ _ (fun _ => rfl), rfl⟩
     · rename_i hpl
-      have hke := clsOk_request (Or.inr hpl) hC
+      have hke := clsOk_request (by rw [hpl]; trivial) hC
       subst hke
       split
-      · exact ⟨ih.icmp .r _ n _ _ hTX (Or.inl ⟨rfl, Or.inr rfl⟩) (by bud), rfl⟩
+      · exact ⟨ih.icmp .r _ n _ _ hTX (Or.inl ⟨rfl, trivial⟩) (by bud), rfl⟩
       · exact ⟨hTX.emit _, rfl⟩
     · split
       · exact ⟨hTX.emit _, rfl⟩
       · exact ⟨hTX.mod _ _ (fun _ => rfl), rfl⟩
+    · rename_i svc reply hpl
+      have hke := clsOk_request (by rw [hpl]; trivial) hC
+      subst hke
+      split
+      · split
+        · exact ⟨ih.icmp .r _ n _ _ (hTX.mod _ _ (fun _ => rfl)) (Or.inl ⟨rfl, trivial⟩) (by bud), rfl⟩
+        · exact ⟨hTX.mod _ _ (fun _ => rfl), rfl⟩
+      · exact ⟨hTX, rfl⟩
+    · exact ⟨hTX.mod _ _ (fun _ => rfl), rfl⟩
   · exact ⟨hT, rfl⟩
 
 include hg in
@@ -835,17 +865,19 @@ theorem t_router (k : Cls) (st : St) (n i : Nat) (f : Frame) (hT : T c st) (hC :
               · exact ⟨hT2.addArp _ _ _ _, hC, Nat.le_refl _⟩
               · exact ⟨hT2, hC, Nat.le_refl _⟩
             · rename_i ident hpl
-              have hke := clsOk_request (Or.inl ⟨ident, hpl⟩) hC
+              have hke := clsOk_request (by rw [hpl]; trivial) hC
               subst hke
               split
               · exact ⟨hT2, hC, Nat.le_refl _⟩
               · have h1 := ih.outC _ n f.srcIp hT2 (hcheap _) (by bud)
                 split
                 · exact ⟨h1, hC, Nat.le_refl _⟩
-                · exact ⟨ih.icmp .r _ n _ _ h1 (Or.inl ⟨rfl, Or.inl ⟨ident, rfl⟩⟩) (by bud), hC, Nat.le_refl _⟩
+                · exact ⟨ih.icmp .r _ n _ _ h1 (Or.inl ⟨rfl, trivial⟩) (by bud), hC, Nat.le_refl _⟩
             · split
               · exact ⟨hT2, hC, Nat.le_refl _⟩
               · exact ⟨hT2.mod _ _ (fun _ => rfl), hC, Nat.le_refl _⟩
+            · exact ⟨hT2, hC, Nat.le_refl _⟩
+            · exact ⟨hT2, hC, Nat.le_refl _⟩
             · exact ⟨hT2, hC, Nat.le_refl _⟩
             · exact ⟨hT2, hC, Nat.le_refl _⟩
         · -- not an own address: what reaches `process_frame` is a broadcast (dropped there) or a data frame
@@ -952,7 +984,7 @@ theorem T_ping {c : List NodeCfg} (hg : GoodCfg c) (fuel : Nat) (hb : fuelBound 
           · exact ha
           · split
             · exact ih.out _ _ _ ha (by omega)
-            · exact ih.icmp .e _ _ _ _ (ih.out _ _ _ ha (by omega)) (Or.inr ⟨rfl, Or.inl ⟨_, rfl⟩⟩) (by bud))
+            · exact ih.icmp .e _ _ _ _ (ih.out _ _ _ ha (by omega)) (Or.inr ⟨rfl, trivial⟩) (by bud))
         (List.range pings) ({ st with nextId := st.nextId + 1 }, true) (hT.nextId _)
       split
       · exact hfold
@@ -963,11 +995,22 @@ theorem T_requestService {c : List NodeCfg} (hg : GoodCfg c) (fuel : Nat) (hb : 
   have ih := tAt hg fuel
   unfold fuelBound at hb
   have h1 : T c (st.modNode n (fun nd => { nd with served := false })) := hT.mod n _ (fun _ => rfl)
-  have h2 := ih.icmp .e _ n server .dataReq h1 (Or.inr ⟨rfl, Or.inr rfl⟩) (by bud)
+  have h2 := ih.icmp .e _ n server .dataReq h1 (Or.inr ⟨rfl, trivial⟩) (by bud)
   unfold requestService
   simp only
   split
   · exact h1
+  · split <;> exact h2
+
+theorem T_requestApp {c : List NodeCfg} (hg : GoodCfg c) (fuel : Nat) (hb : fuelBound ≤ fuel) (st : St) (n : Nat) (server : Ip)
+    (svc : Nat) (reply : Bool) (hT : T c st) : T c (requestApp fuel st n server svc reply).1 := by
+  have ih := tAt hg fuel
+  unfold fuelBound at hb
+  have h2 := ih.icmp .e st n server (.appReq svc reply) hT (Or.inr ⟨rfl, trivial⟩) (by bud)
+  unfold requestApp
+  simp only
+  split
+  · exact hT
   · split <;> exact h2
 
 /-! ### the configuration check survives interface and power toggles -/
@@ -1088,6 +1131,9 @@ theorem live_runOp (fuel : Nat) (hb : fuelBound ≤ fuel) (st : St) (op : NetOp)
   | disable n i =>
     exact ⟨goodCfg_modNode st n _ (fun nd => by simp only [Node.cfg, NodeCfg.addr, ifaces_modify_addr]) h.1, h.2⟩
   | arpclear n => exact ⟨goodCfg_modNode st n _ (fun nd => rfl) h.1, h.2⟩
+  | app n srv svc reply =>
+    have := T_requestApp h.1 fuel hb st n srv svc reply ⟨rfl, h.2⟩
+    exact ⟨this.cfg ▸ h.1, this.ok⟩
   | power n on =>
     cases on
     · refine ⟨goodCfg_modNode st n _ (fun nd => ?_) h.1, h.2⟩
@@ -1161,6 +1207,18 @@ example : (runOps fuelBound exNet [.ping 0 0xC0A80202#32 2, .power 1 false, .pin
     .ping 2 0xC0A80102#32 1, .ping 0 0xC0A80263#32 1, .arpclear 0, .disable 2 0, .ping 0 0xC0A80202#32 1, .enable 2 0,
     .ping 0 0xC0A80202#32 1]).2 = [true, true, false, true, true, false, true, true, false, true, true] := by decide +kernel
 example : (runOps fuelBound exNet [.ping 0 0xC0A80202#32 2]).1.oof = false := by decide +kernel
+/-- application exchanges across the router: answered when the server runs the service, its port is open on both hosts and the
+router permits it; not answered when the router has no rule for it; ignored (no hand-over) when the port is closed. -/
+def exApp (routerPermits : Bool) (clientPort : Bool) : St :=
+  { exNet with nodes := exNet.nodes.zipIdx.map (fun (nd, k) =>
+      if k == 2 then { nd with serves := [53], ports := [53] }
+      else if k == 1 then { nd with serves := if routerPermits then [53] else [] }
+      else { nd with ports := if clientPort then [53] else [] }) }
+example : (runOps fuelBound (exApp true true) [.app 0 0xC0A80202#32 53 true, .app 0 0xC0A80202#32 53 false, .app 0 0xC0A80202#32 80 true]).2 =
+    [true, false, false] := by decide +kernel
+example : (runOps fuelBound (exApp false true) [.app 0 0xC0A80202#32 53 true]).2 = [false] := by decide +kernel
+example : (runOps fuelBound (exApp true false) [.app 0 0xC0A80202#32 53 true]).2 = [false] := by decide +kernel
+
 /-- every class is inhabited: frames the interpreter builds on `exNet`. -/
 def exP : Frame :=
   { id := 0, srcMac := 2, dstMac := 1, srcIp := 0xC0A80101#32, dstIp := 0xC0A80102#32, ttl := 64,
@@ -1172,6 +1230,6 @@ def exE : Frame :=
   { id := 0, srcMac := 1, dstMac := 2, srcIp := 0xC0A80102#32, dstIp := 0xC0A80202#32, ttl := 64, pl := .echoReq 7 }
 example : ClsOk (cfgOf exNet) .p exP := ⟨⟨_, _, _, _, rfl⟩, 0, 0, _, _, rfl, rfl, rfl, rfl⟩
 example : ClsOk (cfgOf exNet) .q1 exQ1 := ⟨⟨_, _, rfl, 0, 0, _, _, rfl, rfl, rfl, rfl⟩, rfl, 0, _, rfl, Or.inl rfl⟩
-example : ClsOk (cfgOf exNet) .e exE := Or.inl ⟨7, rfl⟩
+example : ClsOk (cfgOf exNet) .e exE := trivial
 
 end Primaite.Forward
